@@ -371,6 +371,10 @@ func PublishContext[T any](bus *EventBus, ctx context.Context, event T) {
 				if !filterFunc(event) {
 					continue // Skip this handler as event doesn't match filter
 				}
+			} else if !filterAcceptsReflect(h.filter, event) {
+				// The event was published through an interface-typed value, so the
+				// predicate's parameter type is not T: evaluate it via reflection
+				continue
 			}
 		}
 
@@ -565,6 +569,22 @@ func callHandlerWithContext[T any](h *internalHandler, ctx context.Context, even
 			}
 		}
 	}
+}
+
+// filterAcceptsReflect evaluates a filter predicate whose parameter type differs
+// from the static type the event was published with (e.g. Publish[any]).
+// A predicate that cannot be applied to the event accepts it.
+func filterAcceptsReflect(filter any, event any) bool {
+	fv := reflect.ValueOf(filter)
+	ev := reflect.ValueOf(event)
+	if fv.Kind() != reflect.Func || !ev.IsValid() {
+		return true
+	}
+	ft := fv.Type()
+	if ft.NumIn() != 1 || ft.NumOut() != 1 || ft.Out(0).Kind() != reflect.Bool || !ev.Type().AssignableTo(ft.In(0)) {
+		return true
+	}
+	return fv.Call([]reflect.Value{ev})[0].Bool()
 }
 
 // Subscribe Options
